@@ -251,6 +251,7 @@ func cmdCheck(args []string) int {
 	slowest := ""
 	slowestS := 0.0
 	smokeN, smokeBad := 0, 0
+	slowQ, slowQS, retried := "", 0.0, 0
 	var samples []map[string]interface{}
 	broken := false
 	for _, a := range agg {
@@ -268,6 +269,10 @@ func cmdCheck(args []string) int {
 			continue
 		}
 		total++
+		if a.maxq > slowQS {
+			slowQS, slowQ = a.maxq, a.name
+		}
+		retried += a.retried
 		byKind[a.kind]++
 		if a.ok {
 			discharged++
@@ -359,6 +364,8 @@ func cmdCheck(args []string) int {
 		"solver_seconds":        round3(solverS),
 		"generation_seconds":    round3(genS),
 		"slowest_obligation":    map[string]interface{}{"name": slowest, "seconds": round3(slowestS)},
+		"slowest_path_query":    map[string]interface{}{"obligation": slowQ, "seconds": round3(slowQS), "timeout_seconds": map[string]int{"quick": 10, "thorough": 60}[*tier]},
+		"queries_retried_after_timeout": retried,
 		"smoke_checks":          smokeN,
 		"smoke_failed":          smokeBad,
 		"known_findings_hit":    known,
